@@ -78,6 +78,8 @@ PayMismatch(h, pay) ==
 FieldsView(h) ==
    [idx |-> F32(h, OIdx), size |-> F32(h, OSize), bms |-> F32(h, OBms), orig |-> F64(h, OOrig), ct |-> h[OCt+1],
     ck |-> F32(h, OCk), beid |-> h[OBeId+1], bever |-> F32(h, OBeVer)]
+\* all eight checksum words
+CksView(h) == [i \in 1..8 |-> F32(h, OCk + 4 * (i - 1))]
 MetadataView(h, pay) ==
    [idx |-> F32(h, OIdx), size |-> F32(h, OSize), bms |-> F32(h, OBms), orig |-> F64(h, OOrig), ct |-> h[OCt+1],
     ck |-> F32(h, OCk), beid |-> h[OBeId+1], bever |-> F32(h, OBeVer),
